@@ -5,7 +5,10 @@ import (
 	"bytes"
 	"crypto"
 	"crypto/x509"
+	"encoding/base64"
+	"encoding/json"
 	"fmt"
+	"github.com/sassoftware/relic/v8/xverif/der"
 	"net/http/httptest"
 	"os"
 	"path/filepath"
@@ -131,7 +134,7 @@ func acceptable(b tsa.Behaviour) bool {
 	return false
 }
 
-var tsFormats = []string{"pe", "msi", "ps", "cab", "cat", "xap", "jar", "appx", "macho", "dmg", "pkg", "appmanifest", "appmanifest-legacy", "vsix"}
+var tsFormats = []string{"pe", "msi", "ps", "cab", "cat", "xap", "jar", "appx", "macho", "dmg", "pkg", "appmanifest", "appmanifest-legacy", "vsix", "cosign", "cosign"}
 
 var counter int
 
@@ -144,6 +147,35 @@ type caseDesc struct {
 	Error      string   `json:"error,omitempty"`
 }
 
+// cosignToken reads the RFC 3161 token annotation (nil if absent) and the raw signature
+// value out of a cosign signature manifest.
+func cosignToken(path string) (token, rawSig []byte, err error) {
+	blob, err := os.ReadFile(path)
+	if err != nil {
+		return nil, nil, err
+	}
+	var m struct {
+		Layers []struct {
+			Annotations map[string]string `json:"annotations"`
+		} `json:"layers"`
+	}
+	if err := json.Unmarshal(blob, &m); err != nil || len(m.Layers) != 1 {
+		return nil, nil, fmt.Errorf("signature manifest: %v (%d layers)", err, len(m.Layers))
+	}
+	ann := m.Layers[0].Annotations
+	rawSig, err = base64.StdEncoding.DecodeString(ann["dev.cosignproject.cosign/signature"])
+	if err != nil || len(rawSig) == 0 {
+		return nil, nil, fmt.Errorf("no signature annotation")
+	}
+	if t := ann["dev.sigstore.cosign/rfc3161timestamp"]; t != "" {
+		token, err = base64.StdEncoding.DecodeString(t)
+		if err != nil {
+			return nil, nil, err
+		}
+	}
+	return token, rawSig, nil
+}
+
 type c10fail struct {
 	msg    string
 	timing bool
@@ -154,10 +186,17 @@ func TestC10_Scripts(t *testing.T) {
 		format := rapid.SampledFrom(tsFormats).Draw(t, "format")
 		legacy := format == "appmanifest-legacy"
 		base := strings.TrimSuffix(format, "-legacy")
-		a := arts.Gen(t, base)
+		var a *arts.Artifact
+		if base == "cosign" {
+			// container image signatures: the input is an image manifest, the output a
+			// signature manifest with the token in an annotation (no relic verifier for it)
+			a = &arts.Artifact{Format: "cosign", SigType: "cosign", Name: "image-manifest.json", Data: []byte(`{"schemaVersion":2,"mediaType":"application/vnd.oci.image.manifest.v1+json","config":{"mediaType":"application/vnd.oci.image.config.v1+json","digest":"sha256:44136fa355b3678a1146ad16f7e8649e94fb4fc21fe77e8310c060f61caaff8a","size":2},"layers":[]}`)}
+		} else {
+			a = arts.Gen(t, base)
+		}
 		key := rapid.SampledFrom(pipe.SigningKeys).Draw(t, "key")
 		h := crypto.SHA256
-		if base != "appx" && base != "macho" && base != "dmg" && base != "pkg" {
+		if base != "appx" && base != "macho" && base != "dmg" && base != "pkg" && base != "cosign" {
 			h = rapid.SampledFrom([]crypto.Hash{crypto.SHA256, crypto.SHA1, crypto.SHA384}).Draw(t, "hash")
 		}
 		pool, set := auths, rfcBehaviours
@@ -255,7 +294,12 @@ func TestC10_Scripts(t *testing.T) {
 				os.WriteFile(p, a.Data, 0o644)
 			}
 			attemptNo++
-			err := env.SignLib(&pipe.Req{SigType: a.SigType, In: p, Key: key, Hash: h, Flags: flags})
+			req := &pipe.Req{SigType: a.SigType, In: p, Key: key, Hash: h, Flags: flags}
+			if base == "cosign" {
+				req.Out = p + ".sig.json"
+				os.Remove(req.Out)
+			}
+			err := env.SignLib(req)
 			nt := badBefore > 0 && expectIdx >= 0
 			if attemptNo == 1 {
 				rec.Case(fmt.Sprintf("%s|%s|%s|%v|%v", format, key, h, cd.Behaviours, noTimestamp), fmt.Sprintf("script/%s/bad-before=%d/expect=%d", map[bool]string{true: "legacy", false: "rfc3161"}[legacy], badBefore, expectIdx), nt)
@@ -277,6 +321,12 @@ func TestC10_Scripts(t *testing.T) {
 						// judged only when it repeats)
 						failTiming("authority %d was contacted although no-timestamp was given", i)
 					}
+				}
+				if base == "cosign" {
+					if tok, _, err := cosignToken(p + ".sig.json"); err != nil || tok != nil {
+						failf("cosign output with no-timestamp: token present=%v err=%v", tok != nil, err)
+					}
+					return nil
 				}
 				sigs, verr := env.Verify(&pipe.VerifyReq{Path: p})
 				if verr != nil {
@@ -300,15 +350,41 @@ func TestC10_Scripts(t *testing.T) {
 			if err != nil {
 				failTiming("signing failed although authority #%d answers acceptably: %v", expectIdx, err)
 			}
-			sigs, verr := env.Verify(&pipe.VerifyReq{Path: p})
-			if verr != nil {
-				failf("timestamped output does not verify: %v", verr)
+			var cs *pkcs9.CounterSignature
+			if base == "cosign" {
+				tok, rawSig, err := cosignToken(p + ".sig.json")
+				if err != nil {
+					failf("cosign output unreadable: %v", err)
+				}
+				if tok == nil {
+					failf("no timestamp attached to the cosign signature although the key is configured for timestamping")
+				}
+				info, err := der.VerifyToken(tok, rawSig, nil)
+				if err != nil {
+					failf("the token attached to the cosign signature is not a good time-stamp over the signature value: %v", err)
+				}
+				sd, _ := der.ParseSignedData(tok)
+				crt, err := sd.FindCert(&sd.SignerInfos[0])
+				if err != nil {
+					failf("token without its signer certificate: %v", err)
+				}
+				xc, err := x509.ParseCertificate(crt.Raw)
+				if err != nil {
+					failf("token signer certificate: %v", err)
+				}
+				cs = &pkcs9.CounterSignature{}
+				cs.Certificate, cs.SigningTime = xc, info.GenTime
+			} else {
+				sigs, verr := env.Verify(&pipe.VerifyReq{Path: p})
+				if verr != nil {
+					failf("timestamped output does not verify: %v", verr)
+				}
+				x := sigs[0].Sig.X509Signature
+				if x == nil || x.CounterSignature == nil {
+					failf("no timestamp attached although the key is configured for timestamping")
+				}
+				cs = x.CounterSignature
 			}
-			x := sigs[0].Sig.X509Signature
-			if x == nil || x.CounterSignature == nil {
-				failf("no timestamp attached although the key is configured for timestamping")
-			}
-			cs := x.CounterSignature
 			want := pool[expectIdx]
 			if !bytes.Equal(cs.Certificate.Raw, want.a.Cert.Raw) {
 				who := "unknown"
